@@ -7,4 +7,5 @@ mkdir -p "$ROOT/.work" "$ROOT/evidence"
 cd "$ROOT/harness"
 CARGO_TARGET_DIR="$ROOT/.work/target-main" cargo build --release
 CARGO_TARGET_DIR="$ROOT/.work/target-hv" cargo build --release --features hv
+CARGO_TARGET_DIR="$ROOT/.work/target-paren" cargo build --release --features paren
 echo "setup ok"
